@@ -47,12 +47,21 @@ Proof. exact stable_classes_lemma. Qed.
 Print Assumptions stable_classes.
 
 (* redundant parentheses around any sub-expression that stands in an
-   expression position change nothing ([extra] chooses where).  _partial: the
-   expression sub-language [printable], as for C05.parse_print_expr_partial. *)
+   expression position change nothing ([extra] chooses where).  (The name is
+   kept; [printable] is now every expression the AST has except float
+   literals, see C05.parse_print_program.) *)
 Theorem parse_parens_partial : forall extra e,
   printable e = true -> parse_expr (pr extra 1 e) = parse_expr (print_expr e).
 Proof. exact parse_parens_lemma. Qed.
 Print Assumptions parse_parens_partial.
+
+(* ... and for whole programs: redundant parentheses around any sub-expression
+   in expression position, anywhere in a program of the printable class
+   (C05.parse_print_program says what it covers), change nothing *)
+Theorem parse_parens_program : forall extra p,
+  printable_prog p = true -> parse_program (print_program extra p) = parse_program (print_min p).
+Proof. exact parse_parens_program_lemma. Qed.
+Print Assumptions parse_parens_program.
 
 (* the value of a string literal is exactly its content, for every byte
    sequence without backslash (any Unicode text) and each of the four quote
